@@ -5,7 +5,7 @@ id=$1; wt=/tmp/wt/$id; sd=/tmp/seeds/$id
 cd $wt || exit 2
 export CARGO_NET_OFFLINE=true CARGO_TARGET_DIR=$wt/target
 git checkout -q -- . ; git clean -fdq -e target
-demo_cmd=$(python3 -c "import json;print(json.load(open('$sd/meta.json'))['demo_cmd'])")
+demo_cmd=$(python3 -c "import json;print(json.load(open('$sd/meta.json'))['demo_cmd'].replace('WORKTREE','$wt'))")
 git apply $sd/patch.diff || { echo "patch does not apply"; exit 2; }
 cargo test --workspace --no-fail-fast --offline > $sd/confirm_tests_with_patch.log 2>&1; t_rc=$?
 passed=$(grep -E "^test result" $sd/confirm_tests_with_patch.log | awk '{s+=$4} END{print s}')
